@@ -399,3 +399,8 @@ def batch_oracles(merged, mode):
                     {"statistic": "chi2 of sample() over the 2^k generator subsets", "k": k, "n": n,
                      "chi2": x2, "threshold": thr, "false_alarm_level": 1e-9, "bins": bins}))
     return out
+
+
+# reach guard: a full-size batch in which one of these never fired means the workload or the
+# harness has rotted (exit 2, never a pass)
+REQUIRED_REACH = ['interleave', 'samples', 'density_matrix', 'snapshots:fixed', 'snapshots:global', 'snapshots:onsite', 'generator_abandoned', 'snapshot_of_mixed_base', 'snapshot_after_foreground_op:base_rotated', 'snapshot_after_foreground_op:circuit_extended']
